@@ -28,6 +28,9 @@ EofCount(items) == LET F[k \in 0..Len(items)] == IF k = 0 THEN 0 ELSE F[k-1] + (
                    IN F[Len(items)]
 
 Accepts(e) == \E p \in RunSet({Init0}, Wire(e.in)) : Match(Explode(e.items, <<>>), p.out)
+(* the delivered items are those of the oracle once the spurious ESC \ after an empty OSC (the   *)
+(* recorded C02 finding, pinned by the repository's own test) is tolerated at its markers          *)
+AcceptsK(e) == \E p \in RunSet({Init0}, Wire(e.in)) : MatchK(Explode(e.items, <<>>), p.out)
 
 Why(e) ==
   IF e.drift # "" THEN "drift"
@@ -47,6 +50,7 @@ Next ==
         IF w = "ok" THEN TRUE
         ELSE IF w = "drift" THEN PrintT("DRIFT " \o ToJson([scn |-> e.scn, what |-> e.drift]))
         ELSE PrintT("REJECT " \o ToJson([scn |-> e.scn, line |-> l, why |-> w, detail |-> e.panic \o e.hang,
+                      known |-> IF w = "timing" /\ AcceptsK(e) THEN "spurious-ESC-backslash:after-empty-osc" ELSE "",
                       at |-> IF w = "timing" THEN Diverge(Explode(e.items, <<>>), Run(Init0, Wire(e.in)).out, "") ELSE <<>>]))
      ELSE TRUE
 
